@@ -9,7 +9,7 @@ LEVEL = "exploration"
 RULE = (
     "row sequences of 0-10 rows over key alphabets of 2-3 values per field (so duplicates occur at every pair of "
     "positions), 1-4 declared fields, IsUnique key sets of 1-3 fields, DistinctCount with each of < <= == != >= > and "
-    "thresholds 0-4, both declaration orders of the two checks, the three error modes, interleaved rows rejected for a "
+    "thresholds 0-4 (a quarter of them with one or two more comparisons of the field joined by and / or), both declaration orders of the two checks, the three error modes, interleaved rows rejected for a "
     "field error or a wrong item count; thorough additionally enumerates all sequences of up to 5 rows over 5 row kinds. "
     "Every third case creates the readers of its three runs (one per error mode) up front on one CID and reads them one after the other. Observed through cutplace.Reader (rows, close, error.location, see_also_location) and compared with M-checks. A "
     "case is (check configuration, row sequence, mode), distinct by digest, non-trivial when a duplicate key occurs or "
@@ -37,6 +37,9 @@ def gen_case(rng):
     keys = sorted(rng.sample(range(nfields), nk))
     uniq = {"desc": "uniq", "type": "IsUnique", "fields": ["k%d" % i for i in keys]}
     dist = {"desc": "dist", "type": "DistinctCount", "field": "k%d" % rng.randrange(nfields), "op": rng.choice(OPS), "n": rng.randint(0, 4)}
+    if rng.random() < 0.25:
+        # several comparisons of the field joined by and / or ("k0 >= 1 and k0 <= 3"): each of them compares the count
+        dist["more"] = [[rng.choice(["and", "or"]), rng.choice(OPS), rng.randint(0, 4)] for _ in range(rng.randint(1, 2))]
     shape = rng.random()
     if shape < 0.25:
         checks = [uniq]
